@@ -12,6 +12,10 @@ import bibgen
 from props.base import to_request, corpus_for  # noqa: F401
 
 ID = 'C02'
+# ops that observe a private intermediate of the code (the value tree Writer._to_dict builds, the private Writer._encode): a disagreement there alone -- every public op of the run agreeing,
+# no oracle clause failing -- is not counted (harness/check.py, PRIVATE_OPS)
+PRIVATE_OPS = ('yamltree', 'encode', 'encodeenc')
+
 LEAN_MODULES = ['PybtexModel.Props.C02', 'PybtexModel.Props.C02x', 'PybtexModel.Props.C02y']
 THEOREMS = {
     'C02_person_roundtrip': 'persons: for every person satisfying the explicit predicate WFPerson, Person(_format_name(p)) = Person(str(p)) = p (same five token lists, nothing reported) and both texts coincide',
